@@ -1,20 +1,55 @@
 ------------------------- MODULE Trace_HomeRelay -------------------------
-EXTENDS HomeRelay, Json, IOUtils, TLCExt
+(* Trace validation for C26: the events recorded on a real HomeRelayWatch
+   (hooks c26.* in iroh/src/socket/transports/relay/actor.rs; every event carries the value
+   of the watchable right after the step) must be a behaviour of HomeRelay's get-then-set
+   structure, the advertised value must equal the model's after every event, and the C26
+   invariants are evaluated on the reconstructed states.
+
+   Event                              action
+     reset                            back to Init (a new word on a fresh HomeRelayWatch)
+     set(url)                         SetHome(url)
+     clear                            ClearHome
+     read(url, want)                  Read(url, want)      (the comparison in set_status succeeded)
+                                      TBadRead             (... although another URL is advertised: deviation)
+     write(url)                       Write(url)
+     done(url, want, kind = "skip")   Skip(url, want)      (set_status returned without writing)
+     done(url, kind = "write")        --                   (set_status returned after its write)
+     final                            --                   (value seen by a fresh watcher at the end) *)
+EXTENDS HomeRelay, IOUtils, TLCExt
 Rec == ndJsonDeserialize(IOEnv.TRACE)
-VARIABLE l
-tvars == <<vars, l>>
-TInit == Init /\ l = 1
+VARIABLES l, word
+tvars == <<vars, l, word>>
+TInit == Init /\ l = 1 /\ word = 0
 IsEvent(e) == l <= Len(Rec) /\ Rec[l].ev = e /\ l' = l + 1
-U(x) == IF x = "none" THEN NoUrl ELSE x
-TSetHome   == IsEvent("set_home") /\ SetHome(Rec[l].url)
-TClear     == IsEvent("clear") /\ ClearHome
-TRead      == IsEvent("read") /\ Read(Rec[l].url, Rec[l].state) /\ seen'[Rec[l].url] = U(Rec[l].seen)
-TWrite     == IsEvent("write") /\ Write(Rec[l].url)
-TAtomic    == IsEvent("set_status") /\ SetStatusAtomic(Rec[l].url, Rec[l].state)
-\* every event logs the value of the watchable after the step
-Obs == l' - 1 <= Len(Rec) => home'.url = U(Rec[l].home)
-TNext == (TSetHome \/ TClear \/ TRead \/ TWrite \/ TAtomic) /\ Obs
+Same == UNCHANGED vars
+
+TReset     == IsEvent("reset") /\ word' = word + 1
+              /\ home' = None /\ chosen' = NoUrl /\ src' = "relay_actor" /\ nchanges' = 0
+              /\ pc' = [u \in Urls |-> "idle"] /\ want' = [u \in Urls |-> "Connecting"]
+              /\ ncalls' = [u \in Urls |-> 0] /\ hist' = <<>>
+TSetHome   == IsEvent("set") /\ SetHome(Rec[l].url) /\ UNCHANGED word
+TClear     == IsEvent("clear") /\ ClearHome /\ UNCHANGED word
+TRead      == IsEvent("read") /\ Read(Rec[l].url, Rec[l].want) /\ UNCHANGED word
+\* deviation: the comparison of set_status succeeded although another URL is advertised;
+\* explained so that the invariants judge the write that follows
+TBadRead   == IsEvent("read") /\ ~Atomic /\ HomeUrl # Rec[l].url /\ pc[Rec[l].url] = "idle"
+              /\ pc' = [pc EXCEPT ![Rec[l].url] = "read"] /\ want' = [want EXCEPT ![Rec[l].url] = Rec[l].want]
+              /\ ncalls' = [ncalls EXCEPT ![Rec[l].url] = @ + 1]
+              /\ UNCHANGED <<home, chosen, src, nchanges, hist, word>>
+TWrite     == IsEvent("write") /\ Write(Rec[l].url) /\ UNCHANGED word
+TDoneSkip  == IsEvent("done") /\ Rec[l].kind = "skip" /\ Skip(Rec[l].url, Rec[l].want) /\ UNCHANGED word
+TDoneWrite == IsEvent("done") /\ Rec[l].kind = "write" /\ pc[Rec[l].url] = "idle" /\ Same /\ UNCHANGED word
+TFinal     == IsEvent("final") /\ Quiescent /\ Same /\ UNCHANGED word
+\* every event but reset carries the advertised value after the step
+Obs == Rec[l].ev # "reset" => (home'.url = Rec[l].home /\ home'.state = Rec[l].state)
+TNext == (TReset \/ TSetHome \/ TClear \/ TRead \/ TBadRead \/ TWrite \/ TDoneSkip \/ TDoneWrite \/ TFinal) /\ Obs
 TSpec == TInit /\ [][TNext]_tvars
+
+\* batch mode: report every state on which a C26 invariant is false, and go on
+ReportViolations ==
+  /\ (~HomeIsChosen)    => PrintT(<<"C26-VIOLATED", "HomeIsChosen", word, l - 1>>)
+  /\ (~WrittenByChosen) => PrintT(<<"C26-VIOLATED", "WrittenByChosen", word, l - 1>>)
+
 Accepted == LET d == TLCGet("stats").diameter - 1 IN
             IF d = Len(Rec) THEN TRUE
             ELSE Print(<<"TRACE-REJECTED at event", d + 1, IF d + 1 <= Len(Rec) THEN Rec[d+1] ELSE "eof">>, FALSE)
